@@ -247,22 +247,20 @@ def apply_table():
         seen["df"], seen["kw"] = df.copy(), kw
         out = df.copy()
         out["c22"] = [7.0 + i for i in range(len(df))]
+        out["c12"] = out["c12"] + 0.5          # the solve may move a tabulated component (soft least squares)
         out = out.drop("c44", axis=1)
         return out
     data = ed.ElastData(100.0, 3, 50.0, [ed.ElastVolumeData(10.0 * i, {c_(1, 1): 1.0 + i, c_(1, 2): 2.0 + i, c_(4, 4): 3.0 + i}) for i in range(3)], [])
-    real = fill.fill_cij
-    fill.fill_cij = fake_fill
-    try:
-        sym = {"system": "cubic", "ignore_rank": True, "drop_atol": 1e-3}
+    from contracts.nonshear_env import patched
+    sym = {"system": "cubic", "ignore_rank": True, "drop_atol": 1e-3}
+    with patched(fill, fill_cij=fake_fill):          # also redirects a module-level `from cij.util.fill import fill_cij` elsewhere
         ed.apply_symetry_on_elast_data(data, sym)
-    finally:
-        fill.fill_cij = real
     if seen.get("kw") != {"system": "cubic", "ignore_rank": True, "drop_atol": 1e-3}:
         return core.refuted("callsite", "fill_cij called with %r" % (seen.get("kw"),), witness_id="apply-kw", replay={"reproduced": True})
     if list(seen["df"].columns) != ["c11", "c12", "c44"] or seen["df"]["c12"].tolist() != [2.0, 3.0, 4.0]:
         return core.refuted("callsite", "table handed to fill_cij: %r" % (seen["df"],), witness_id="apply-df", replay={"reproduced": True})
     for i, v in enumerate(data.volumes):
-        want = {c_(1, 1): 1.0 + i, c_(1, 2): 2.0 + i, c_(2, 2): 7.0 + i}
+        want = {c_(1, 1): 1.0 + i, c_(1, 2): 2.5 + i, c_(2, 2): 7.0 + i}
         if v.volume != 10.0 * i or dict(v.static_elastic_modulus) != want:
             return core.refuted("callsite", "volume row %d stores %r" % (i, dict(v.static_elastic_modulus)), witness_id="apply-store", replay={"reproduced": True})
     return core.proved("callsite", "apply_symetry_on_elast_data passes the settings unchanged, builds cIJ columns from canonical keys and stores exactly "
